@@ -272,7 +272,16 @@ def vmap(v, f):
     if isinstance(v, VBlob):
         return VBlob(f(v.id), f(v.len))
     if isinstance(v, VBytes):
-        return VBytes([("b", f(c[1])) if c[0] == "b" else ("o", f(c[1]), f(c[2])) for c in v.chunks])
+        def _mc(c):
+            if c[0] == "b":
+                return ("b", f(c[1]))
+            if c[0] == "s":
+                return ("s", f(c[1]), tuple(f(x) for x in c[2]))
+            if c[0] == "alt":
+                return ("alt", f(c[1]), tuple(_mc(x) for x in c[2]), tuple(_mc(x) for x in c[3]))
+            return ("o", f(c[1]), f(c[2]))
+
+        return VBytes([_mc(c) for c in v.chunks])
     if isinstance(v, VCoroutine):
         return VCoroutine(v.name, v.creator, [vmap(x, f) for x in v.caps], f(v.idx), {k: tuple(vmap(x, f) for x in p) for k, p in v.variants.items()})
     if isinstance(v, (VOpaque, VFn, VPoison)) or v is None:
@@ -375,9 +384,24 @@ def merge(g, a, b):
     if isinstance(a, VBlob):
         return VBlob(merge(g, a.id, b.id), merge(g, a.len, b.len))
     if isinstance(a, VBytes):
-        if len(a.chunks) != len(b.chunks) or any(x[0] != y[0] or x[1].sort() != y[1].sort() for x, y in zip(a.chunks, b.chunks)):
-            return VPoison("merge of differently shaped byte strings")
-        return VBytes([("b", merge(g, x[1], y[1])) if x[0] == "b" else ("o", merge(g, x[1], y[1]), merge(g, x[2], y[2])) for x, y in zip(a.chunks, b.chunks)])
+        def _same_shape(x, y):
+            return x[0] == y[0] and x[0] != "alt" and x[1].sort() == y[1].sort() and (x[0] != "s" or len(x[2]) == len(y[2]))
+
+        def _mc(x, y):
+            if x[0] == "b":
+                return ("b", merge(g, x[1], y[1]))
+            if x[0] == "s":
+                return ("s", merge(g, x[1], y[1]), tuple(merge(g, p, q) for p, q in zip(x[2], y[2])))
+            return ("o", merge(g, x[1], y[1]), merge(g, x[2], y[2]))
+
+        # common prefix of equal shape is merged chunk by chunk; differently shaped remainders become a guarded alternative ('alt', g, restA, restB)
+        n = 0
+        while n < len(a.chunks) and n < len(b.chunks) and _same_shape(a.chunks[n], b.chunks[n]):
+            n += 1
+        out = [_mc(x, y) for x, y in zip(a.chunks[:n], b.chunks[:n])]
+        if n < len(a.chunks) or n < len(b.chunks):
+            out.append(("alt", g, tuple(a.chunks[n:]), tuple(b.chunks[n:])))
+        return VBytes(out)
     if isinstance(a, VCoroutine):
         if a.name != b.name:
             return VPoison("merge of different coroutines")
@@ -446,9 +470,22 @@ def flatten(v, out=None):
         out.append(v.len)
     elif isinstance(v, VBytes):
         for c in v.chunks:
+            if c[0] == "alt":
+                # a guarded alternative of two differently shaped remainders: one leaf, each side tagged with its width and padded to a common width
+                ka = flatten(VBytes(c[2]))
+                kb = flatten(VBytes(c[3]))
+                ca = z3.Concat(*ka) if len(ka) > 1 else (ka[0] if ka else z3.BitVecVal(0, 1))
+                cb = z3.Concat(*kb) if len(kb) > 1 else (kb[0] if kb else z3.BitVecVal(0, 1))
+                w = max(ca.size(), cb.size())
+                pa = z3.Concat(z3.BitVecVal(ca.size(), 16), z3.ZeroExt(w - ca.size(), ca))
+                pb = z3.Concat(z3.BitVecVal(cb.size(), 16), z3.ZeroExt(w - cb.size(), cb))
+                out.append(z3.If(c[1], pa, pb))
+                continue
             out.append(c[1])
             if c[0] == "o":
                 out.append(c[2])
+            elif c[0] == "s":
+                out.extend(c[2])
     elif isinstance(v, VCoroutine):
         out.append(v.idx)
         for x in v.caps:
